@@ -128,7 +128,7 @@ class PDFPage:
 
         pages = False
         if "Pages" in document.catalog:
-            objects = depth_first_search(document.catalog["Pages"], document.catalog)
+            objects = depth_first_search(document.catalog["Pages"], {})
             for objid, tree in objects:
                 yield cls(document, objid, tree, next(page_labels))
                 pages = True
